@@ -151,6 +151,24 @@ def part_exit(args, tmp):
             ready = bool(wait([p.sentinel], 0))
             res.append(dict(how=how, arg=arg, exitcode=p.exitcode, sentinel_ready=ready,
                             alive=p.is_alive()))
+    # two threads reap the same child concurrently: whoever loses the waitpid race must not
+    # invent a status
+    import threading as _th
+    for how, arg in [("exit", 7), ("exit", 255), ("signal", 9), ("signal", 15)] * (1 if args.get("quick") else 3):
+        p = ctx.Process(target=die, args=(how, arg))
+        p.start()
+        seen = {}
+
+        def joiner(k):
+            p.join(30)
+            seen[k] = p.exitcode
+        ts = [_th.Thread(target=joiner, args=(k,)) for k in range(2)]
+        for t in ts:
+            t.start()
+        for t in ts:
+            t.join(40)
+        res.append(dict(how="concurrent-" + how, arg=arg, exitcode=p.exitcode, seen=seen,
+                        alive=p.is_alive(), sentinel_ready=bool(wait([p.sentinel], 0))))
     # liveness: sentinel not ready while alive
     p = ctx.Process(target=die, args=("sleep", 1.0))
     p.start()
